@@ -53,6 +53,15 @@ def generate():
                       ('helpRequest', m.HELPREQUEST), ('helpReply', m.HELPREPLY), ('eventReply', m.EVENTREPLY),
                       ('logEvent', m.LOG_EVENT), ('describeRequest', m.DESCRIPTIONREQUEST)]:
         out.append(f'def {name} : List Nat := {lbytes(val)}  -- {val!r}')
+    # lines a connection gets that are not replies: events, error events (snapshot/update of a parameter in error
+    # state), log messages, help text lines.  Cross-checked with what the client treats as updates.
+    import frappy.client as fc
+    async_actions = [m.EVENTREPLY, m.ERRORPREFIX + m.EVENTREPLY, m.LOG_EVENT, '_']
+    unsolicited = set(fc.UPDATE_MESSAGES) - {m.READREPLY, m.WRITEREPLY, m.ERRORPREFIX + m.READREQUEST}
+    if not unsolicited <= set(async_actions):
+        raise RuntimeError(f'client UPDATE_MESSAGES has unsolicited actions unknown to the C07 model: {unsolicited}')
+    out.append('/-- actions of lines that are not replies: update, error_update, log, help text line -/')
+    out.append('def asyncActions : List (List Nat) := ' + llist(f'{lbytes(c)}  /- {c} -/\n  ' for c in async_actions))
     out.append(f'def eol : Nat := {itf.EOL[0]}')
     out.append(f'def helpLineCount : Nat := {len(m.HelpMessage.splitlines())}')
     out.append("def helpLineAction : List Nat := " + lbytes('_') + "  -- handle_help sends ('_', idx+1, line)")
